@@ -27,7 +27,7 @@ ASSUMPTIONS = [
     'iteration is judged on complete iterations only; whether it consumes the rows is left open (both PEP 249 and beanquery semantics accepted)',
     'type_code is only required to be non-None and equal for equal datatypes within a run',
 ]
-PROBES = ['fetchmany_beyond_remainder', 'fetch_after_exhaustion', 'reexecute_with_rows_pending', 'failed_execute_then_fetch',
+PROBES = ['executemany', 'executemany_with_arraysize_set', 'fetchmany_beyond_remainder', 'fetch_after_exhaustion', 'reexecute_with_rows_pending', 'failed_execute_then_fetch',
           'rowcount_after_partial_fetch', 'description_slice', 'two_cursors_both_pending', 'empty_result', 'fetch_before_execute',
           'arraysize_default_used', 'iterate_after_partial_fetch']
 
@@ -90,7 +90,7 @@ def generate(rng, tier, run):
             ops.append({'op': 'conn_execute', 'stmt': rng.randrange(len(st))})
         w = {'execute': 5, 'fetchone': 6, 'fetchmany': 7, 'fetchall': 2, 'iter': 1.5, 'arraysize': 1.5,
              'rowcount': 3, 'rownumber': 3, 'description': 2, 'desc_probe': 3, 'close': 0.3,
-             'setinputsizes': 0.3, 'setoutputsize': 0.3, 'conn_execute': 0.5}
+             'setinputsizes': 0.3, 'setoutputsize': 0.3, 'conn_execute': 0.5, 'executemany': 0.8}
         # swarm: switch some op kinds off per client
         for kname in list(w):
             if kname not in ('execute', 'fetchmany') and rng.random() < 0.2:
@@ -108,6 +108,8 @@ def generate(rng, tier, run):
                         op['fault'] = {'kind': 'storage', 'table': 't0', 'row': rng.randint(0, max(0, nrows))}
                     elif f < 0.12:
                         op['fault'] = {'kind': rng.choice(['udf', 'cancel']), 'k': 0, 'n': rng.randint(0, max(0, nrows))}
+            elif kname == 'executemany':
+                op['sets'] = [rng.randint(0, nrows + 2) for _ in range(rng.choice([0, 1, 2, 3]))]
             elif kname == 'fetchmany':
                 op['n'] = None if rng.random() < 0.35 else rng.randint(1, nrows + 3)
             elif kname == 'arraysize':
@@ -196,13 +198,16 @@ def model_step(s, op, obs):
 # ---------------------------------------------------------------------------
 # execution
 
-def below_cursor(conn_factory, text):
+MANY = 'SELECT a, a - %s AS x FROM #t0 WHERE a < %s'
+
+
+def below_cursor(conn_factory, text, params=None):
     """(desc, rows) from the engine below the cursor on a fresh connection, or
     the exception class name.  Inert harness seams."""
     with world.reference_mode():
         try:
             conn = conn_factory()
-            q = compiler.compile(conn, stmts.fresh_ast(text))
+            q = compiler.compile(conn, stmts.fresh_ast(text), params)
             desc, rows = query_execute.execute_query(q)
             return ('ok', [[c.name, core.type_name(c.datatype)] for c in desc], canon_rows(rows))
         except Exception as e:
@@ -327,6 +332,32 @@ def execute(case, keep_log=False):
             cur = cursors[ci]
             if k == 'execute':
                 do_execute(ci, oi, op, False)
+                continue
+            if k == 'executemany':
+                # the statement is executed once per parameter set; the cursor then holds the last result;
+                # with no parameter set nothing is executed.  arraysize is a property of the cursor, not of a result.
+                sets = [[v, v] for v in op['sets']]
+                exc = None
+                try:
+                    cur.executemany(MANY, sets)
+                except Exception as e:
+                    exc = e
+                log.add('executemany', ci, op['sets'], core.exc_class(exc) if exc else None)
+                if exc is not None:
+                    violation('no-raise', ci, oi, op, 'no exception', f'{core.exc_class(exc)}: {exc}')
+                    continue
+                S.probes['executemany'] += 1
+                if sets:
+                    key = ('many', op['sets'][-1])
+                    if key not in refs:
+                        refs[key] = below_cursor(ref_conn, MANY, sets[-1])
+                    r = refs[key]
+                    arr = models[ci][0].arraysize
+                    if any(s_.arraysize != 1 for s_ in models[ci]):
+                        S.probes['executemany_with_arraysize_set'] += 1
+                    models[ci] = [State(rows=r[2], pos=0, total=len(r[2]), desc=r[1], arraysize=arr)]
+                    fetches_since_exec[ci] = 0
+                    had_exec[ci] = True
                 continue
             if k == 'conn_execute':
                 do_execute(ci, oi, op, True)
@@ -557,6 +588,8 @@ def _brief(op):
         s += f'#{op["stmt"]}'
     if op.get('n') is not None:
         s += f'({op["n"]})'
+    if op.get('sets') is not None:
+        s += f'x{len(op["sets"])}'
     if op.get('fault'):
         s += f'!{op["fault"]["kind"]}'
     if op['op'] == 'desc_probe':
